@@ -259,6 +259,18 @@ func ReplayFile(path string, quiet bool) int {
 		return 0
 	}
 	if v.Class != r.Class {
+		if out := os.Getenv("PQSIM_REPLAY_ADOPT"); out != "" && (strings.HasSuffix(r.Class, "/crash") || strings.HasSuffix(r.Class, "/hang") || strings.HasSuffix(r.Class, "/data-race")) {
+			// the driver is confirming a worker that died, stalled or raced on this
+			// scenario: the scenario alone shows an ordinary violation. Record it
+			// under what it is; the driver confirms that file like any other.
+			nr := *r
+			nr.Class, nr.Detail = v.Class, v.Detail
+			nr.EventHash, nr.Events = c.Hash(), c.Events()
+			if err := core.WriteReplay(out, &nr); err == nil {
+				fmt.Printf("replay %s: the scenario shows %s instead of %s; recorded as %s\n", path, v.Class, r.Class, out)
+				return 5
+			}
+		}
 		fmt.Printf("REPLAY-DIVERGED %s: recorded class %s, observed %s: %s\n", path, r.Class, v.Class, v.Detail)
 		return 2
 	}
@@ -566,6 +578,34 @@ func Driver(propID, tier string, baseSeed uint64) int {
 		}
 		code := runReplayProcess(exeFor(f.Variant), f.Replay, f.Variant)
 		unconfirmable := strings.HasSuffix(f.Class, "/crash") || strings.HasSuffix(f.Class, "/hang") || strings.HasSuffix(f.Class, "/data-race")
+		if unconfirmable && code == 5 {
+			// alone in a fresh process the scenario does not kill or stall the worker
+			// but violates the property in the ordinary way: judged as that
+			kind := f.Class[strings.LastIndex(f.Class, "/")+1:]
+			adopted := strings.TrimSuffix(strings.TrimSuffix(f.Replay, ".json"), "-"+kind) + "-adopted.json"
+			if r, err := core.ReadReplay(adopted); err == nil {
+				f.Class, f.Detail, f.Replay = r.Class, r.Detail, adopted
+				unconfirmable = false
+				if seen[f.Class] {
+					continue
+				}
+				seen[f.Class] = true
+				known2 := false
+				for _, k := range known {
+					if k.Prop == propID && k.Class == f.Class {
+						known2 = true
+						if !knownHit[k.Class] {
+							knownHit[k.Class] = true
+							knownLines = append(knownLines, fmt.Sprintf("KNOWN-FINDING: property=%s %s :: %s", propID, k.Class, k.Desc))
+						}
+					}
+				}
+				if known2 {
+					continue
+				}
+				code = runReplayProcess(exeFor(f.Variant), adopted, f.Variant)
+			}
+		}
 		if ((strings.HasSuffix(f.Class, "/crash") || strings.HasSuffix(f.Class, "/data-race")) && code == 3) || (strings.HasSuffix(f.Class, "/hang") && code == 4) {
 			code = 1
 		}
@@ -641,6 +681,11 @@ func runReplayProcess(exe, path, variant string) int {
 	if strings.HasSuffix(strings.TrimSuffix(path, ".json"), "-hang") {
 		cmd.Env = append(cmd.Env, "PQSIM_REPLAY_WALL=90s")
 	}
+	for _, k := range []string{"-hang", "-crash", "-data-race"} {
+		if base := strings.TrimSuffix(path, ".json"); strings.HasSuffix(base, k) {
+			cmd.Env = append(cmd.Env, "PQSIM_REPLAY_ADOPT="+strings.TrimSuffix(base, k)+"-adopted.json")
+		}
+	}
 	var buf strings.Builder
 	cmd.Stdout = &buf
 	cmd.Stderr = &buf
@@ -672,6 +717,9 @@ func runReplayProcess(exe, path, variant string) int {
 		fmt.Fprintf(os.Stderr, "%s\n", out)
 		if code == 0 || code == 2 {
 			return 2
+		}
+		if code == 5 {
+			return 5 // an ordinary violation adopted from a crash/hang/data-race candidate
 		}
 		return 3 // crash: fatal error, signal, race-detector exit code
 	}
